@@ -91,6 +91,7 @@ def accepted_inputs(t):
 
     :return Xs: a Torch matrix, each row is one string
     """
+    t = t.tt()  # The recursion below reads 3-D cores without Tucker factors
     dtype = t.cores[0].dtype
 
     def recursion(Xs, left, rights, bound, mu):
